@@ -31,9 +31,7 @@ class Tape(object):
 
     def draw(self, n):
         """integer in [0, n)"""
-        if n <= 1:
-            v = 0
-            # still consume a slot so tapes keep their shape under edits
+        # n <= 1 still consumes a slot, so tapes keep their shape under edits
         if self._replay is not None:
             v = self._replay[self._pos] if self._pos < len(self._replay) else 0
             self._pos += 1
